@@ -1,3 +1,4 @@
+import Varint.Lemmas.Adaptive
 import Varint.Model.Adaptive
 import Varint.Lemmas.Delta
 import Varint.Lemmas.FOR
@@ -128,5 +129,38 @@ theorem adaptive_roundtrip_partial (xs : List Nat) (g : FOR.Good xs) (rest : Lis
 
 
 example : decode (encodeWith TAGGED [7, 2 ^ 64 - 1, 0]) 3 = some [7, 2 ^ 64 - 1, 0] := by decide
+
+
+/-! ## every arm: `decodeAll` is the model of varintAdaptiveDecode for all six encodings (compared with the C on
+    every adaptive op of the correspondence) -/
+
+/-- MAIN: whichever encoding the analysis selects — for EVERY outcome of the selector's floating-point
+    comparisons — decoding with the original count returns the original sequence; trailing bytes are
+    irrelevant. `hacc`: the dictionary encoder refuses more than 2^20 distinct values (the encoder then
+    reports failure); it cannot be triggered up to 2^20 elements (`adaptive_roundtrip_upto_2_20`). -/
+theorem adaptive_roundtrip (φ : FloatPreds) (xs : List Nat) (hne : xs ≠ []) (hx : ∀ x ∈ xs, x < 2 ^ 64)
+    (hn : xs.length < 2 ^ 32) (hacc : selectWith φ (analyze xs) = DICT → Dict.enc xs ≠ []) (rest : List Nat) :
+    decodeAll (encodeWith (selectWith φ (analyze xs)) xs ++ rest) xs.length = some xs :=
+  adaptive_roundtrip_sel φ xs hne hx hn hacc rest
+
+theorem adaptive_roundtrip_upto_2_20 (φ : FloatPreds) (xs : List Nat) (hne : xs ≠ []) (hx : ∀ x ∈ xs, x < 2 ^ 64)
+    (hn : xs.length ≤ 1048576) (rest : List Nat) :
+    decodeAll (encodeWith (selectWith φ (analyze xs)) xs ++ rest) xs.length = some xs :=
+  adaptive_roundtrip_small φ xs hne hx hn rest
+
+/-- forcing an encoding inside its documented domain is lossless: PFOR and DICT for any accepted array,
+    BITMAP for strictly increasing values below 65536 (any capacity: a smaller one yields the prefix) -/
+theorem adaptive_forced_all (xs : List Nat) (hne : xs ≠ []) (hx : ∀ x ∈ xs, x < 2 ^ 64) (hn : xs.length < 2 ^ 32)
+    (rest : List Nat) :
+    decodeAll (encodeWith PFOR_ xs ++ rest) xs.length = some xs ∧
+    (Dict.enc xs ≠ [] → decodeAll (encodeWith DICT xs ++ rest) xs.length = some xs) ∧
+    (isStrictAsc xs = true → (∀ x ∈ xs, x < 65536) →
+      ∀ cap, decodeAll (encodeWith BITMAP xs ++ rest) cap = some (xs.take cap)) ∧
+    decodeAll (encodeWith DELTA xs ++ rest) xs.length = some xs ∧
+    decodeAll (encodeWith FOR_ xs ++ rest) xs.length = some xs ∧
+    decodeAll (encodeWith TAGGED xs ++ rest) xs.length = some xs :=
+  ⟨pfor_forced xs ⟨hne, hn, hx⟩ rest, fun h => dict_forced xs hx hn h rest,
+   fun ha hl cap => bitmap_forced_cap xs ha hl rest cap, delta_forced xs hx rest,
+   for_forced xs ⟨hne, hx, by omega⟩ rest, tagged_forced TAGGED (by simp [TAGGED]) xs hx (by omega) rest⟩
 
 end Varint.Props.C06
